@@ -328,6 +328,8 @@ Apply(h, e) ==
     [] e.a = "edito" -> <<"ok", [h EXCEPT !.do = Cont(e.c)]>>
     [] e.a = "proc" -> <<"ok", DoProcStart([h EXCEPT !.job = NoJob], e.env)>>
     [] e.a = "phase" -> <<"ok", DoPhaseStart(h)>>
+    \* Scheduler._derive_job: which job the dispatched step got
+    [] e.a = "kind" -> <<IF h.job.k = e.k THEN "ok" ELSE "dispatched_job_is_of_another_kind_than_in_the_job_model", h>>
     [] e.a = "drain" -> <<IF h.drain = e.v THEN "ok" ELSE "scheduler_drained_differs_from_the_job_model", [h EXCEPT !.drain = e.v]>>
     [] e.a = "hash" ->
          LET h0 == AdvanceTo(h, {"new", "inpok", "ran"}, 3)
